@@ -50,16 +50,25 @@ int64_t CDNS::CdnsDecoder::read_negative()
                                     std::to_string(item_length)).c_str());
     }
 
-    return -1 - read_int(item_length);
+    // -1 - n does not fit into int64_t for n > INT64_MAX; clamp instead of wrapping around to a non-negative value
+    uint64_t value = read_int(item_length);
+    if (value > static_cast<uint64_t>(INT64_MAX))
+        return INT64_MIN;
+
+    return -1 - static_cast<int64_t>(value);
 }
 
 int64_t CDNS::CdnsDecoder::read_integer()
 {
     CborType peek = peek_type();
     switch (peek) {
-        case CborType::UNSIGNED:
-            return read_unsigned();
+        case CborType::UNSIGNED: {
+            // values above INT64_MAX are clamped: converted as they are they would turn negative and could be
+            // mistaken for another value (e.g. an unknown map key for one of the negative keys)
+            uint64_t value = read_unsigned();
+            return value > static_cast<uint64_t>(INT64_MAX) ? INT64_MAX : static_cast<int64_t>(value);
             break;
+        }
         case CborType::NEGATIVE:
             return read_negative();
             break;
